@@ -576,4 +576,44 @@ theorem dirsOnly_of_check {r : Repo} {lk : Lookup} (hlk : LkSound r lk) (h : dir
   simp only [hs, Bool.not_true, Bool.false_or, beq_iff_eq] at this
   exact this
 
+/-! ### delete marks: `Repository::check` walks every listed snapshot -/
+
+theorem snapTrees_remark (f : Snap → DelMark) (r : Repo) : snapTrees (remark f r) = snapTrees r := by
+  simp [snapTrees, remark, List.map_map, Function.comp_def]
+
+theorem remark_trees (f : Snap → DelMark) (r : Repo) : (remark f r).snaps.map (·.tree) = r.snaps.map (·.tree) :=
+  snapTrees_remark f r
+
+theorem roots_remark (f : Snap → DelMark) (r : Repo) : roots (remark f r) = roots r := by
+  unfold roots
+  rw [remark_trees]
+
+theorem rootPacks_remark (f : Snap → DelMark) (r : Repo) (lk : Lookup) : rootPacks (remark f r) lk = rootPacks r lk := by
+  unfold rootPacks
+  rw [remark_trees]
+
+/-- nothing but the snapshot list differs between `r` and `remark f r`, and of that list check reads the trees only -/
+theorem checkW_remark (f : Snap → DelMark) (w : Bool) (z : Sizes) (rootFix : Bool) (r : Repo) (lk : Lookup) (fuel : Nat) :
+    checkW w z rootFix (remark f r) lk fuel = checkW w z rootFix r lk fuel := by
+  have h1 : readTree (remark f r) lk = readTree r lk := rfl
+  have h2 : indexErrs (remark f r) = indexErrs r := rfl
+  have h3 : listErrs z (remark f r) = listErrs z r := rfl
+  have h4 : checkIndexPacks w (remark f r) = checkIndexPacks w r := rfl
+  have h5 : ∀ ps packs, packErrsOf z (remark f r) ps packs = packErrsOf z r ps packs := fun _ _ => rfl
+  have h6 : (remark f r).snapsOk = r.snapsOk := rfl
+  have h7 : (remark f r).indexOk = r.indexOk := rfl
+  unfold checkW readSet
+  rw [h1, h2, h3, h4, h6, h7, roots_remark, rootPacks_remark]
+  simp only [h5]
+
+theorem restoreOk_remark_trees (f : Snap → DelMark) (r : Repo) (lk : Lookup) (fuel : Nat) :
+    walk (readTree (remark f r) lk) fuel (roots (remark f r)) (roots (remark f r)) =
+      walk (readTree r lk) fuel (roots r) (roots r) := by
+  have h1 : readTree (remark f r) lk = readTree r lk := rfl
+  rw [h1, roots_remark]
+
+theorem mem_dropExpired {now : Int} {r : Repo} {s : Snap} :
+    s ∈ (dropExpired now r).snaps ↔ s ∈ r.snaps ∧ mustDelete now s = false := by
+  simp [dropExpired, List.mem_filter]
+
 end Rustic.Check
